@@ -1,7 +1,7 @@
 (** Prop_C13.v -- C13: idle channels are swept completely and the store
     returns to empty. *)
 From MW Require Import Base Store Monad Usage Server Websocket Service Inv Obs
-     StepFacts SweepFacts TimeInv Corollaries QuiesceFacts Inst_Params Inst_Timer IdleFacts.
+     StepFacts SweepFacts TimeInv Corollaries QuiesceFacts Inst_Params Inst_Timer IdleFacts CrashAck.
 From MWGen Require GenParams.
 Local Open Scope list_scope.
 
@@ -103,3 +103,30 @@ Proof.
   split; [exact (gen_cfg_exp _ _ _)|]. split; [exact (gen_cfg_period _ _ _)|].
   exists 0, []. reflexivity.
 Qed.
+
+(** * anchored in the history alone (quoted by type from CrashAck.v) *)
+
+(** from any reachable state: no activity concerning a mailbox during a continuation that ends in a fault-free timer firing at or after exp later => deleted (no hypothesis about the stored stamp) *)
+Theorem C13_idle_since_is_swept : ltac:(let t := type of idle_since_is_swept in exact t).
+Proof. exact idle_since_is_swept. Qed.
+Check C13_idle_since_is_swept.
+Print Assumptions C13_idle_since_is_swept.
+
+(** (explicit sweep) *)
+Theorem C13_idle_since_is_swept_sweep : ltac:(let t := type of idle_since_is_swept_sweep in exact t).
+Proof. exact idle_since_is_swept_sweep. Qed.
+Check C13_idle_since_is_swept_sweep.
+Print Assumptions C13_idle_since_is_swept_sweep.
+
+(** the timer callback never raises -- which is why the timer survives *)
+Theorem C13_expire_total : ltac:(let t := type of expire_total in exact t).
+Proof. exact expire_total. Qed.
+Check C13_expire_total.
+Print Assumptions C13_expire_total.
+
+(** non-vacuity *)
+Theorem C13_idle_since_nonvacuous : ltac:(let t := type of idle_since_nonvacuous in exact t).
+Proof. exact idle_since_nonvacuous. Qed.
+Check C13_idle_since_nonvacuous.
+Print Assumptions C13_idle_since_nonvacuous.
+
